@@ -195,6 +195,9 @@ func (r *Run) Violation(sig string, detail string, replay interface{}) {
 		}
 	}
 	r.violations++
+	if len(r.samples) < 8 {
+		r.samples = append(r.samples, map[string]interface{}{"violating_case": sig, "case": replay})
+	}
 	if r.violations > 25 {
 		return
 	}
